@@ -304,11 +304,14 @@ class CanonFam(Family):
 
     ALPH = ["/", "/", "/", ".", ".", "%", "%2", "%2e", "%2E", "%2f", "%25", "%00", "%c3", "%a9", "%e2", "%82", "%ac", "%f0", "%9f", "%98", "%80",
             "%ff", "%fe", "%ed", "%a0", "%c0", "%af", "%e0", "%f4", "%90", "%41", "a", "b", "é", "日", "\U0001f600", "\\", ";", " ", "\x00", "\x7f",
-            "%g1", "%1g", "%%", "A", "~", "+", "�", "e", "2", "%E2%82%AC", "%zz"]
+            "%g1", "%1g", "%%", "A", "~", "+", "�", "e", "2", "%E2%82%AC", "%zz",
+            # text that is not in normalisation form C / KC: canonical_path must not rewrite names
+            "e\u0301", "\u0301", "%CC%81", "u\u0308", "\u1100\u1161", "\u2126", "%E2%84%A6", "\u212b", "\ufb01", "\u00e9", "\u0307\u0323"]
 
     def gen(self, rng, n):
         for s in self.share(["", "/", "//", "/.", "/..", "/a/..", "/a/../", "/a/./b/../c", "//app/%2e%2e/x/", "/%2e%2e/%2e%2e/etc", "/a%2fb/../c", "/%252e%252e/x",
-                  "/a/b/..", "/a/b/.", "/a/b/", "a", "a/b", "..", "%", "/%E2%82", "/%E2%82%C2%AC", "/%F0%80%80", "/%C3©", "/%ED%A0%80", "/%F4%90%80%80"]):
+                  "/a/b/..", "/a/b/.", "/a/b/", "a", "a/b", "..", "%", "/%E2%82", "/%E2%82%C2%AC", "/%F0%80%80", "/%C3©", "/%ED%A0%80", "/%F4%90%80%80",
+                  "/e\u0301", "/e%CC%81/x", "/\u2126", "/%E2%84%AB", "/\u1100\u1161/", "/\ufb01le", "/a\u0307\u0323"]):
             yield {"p": s}
         for _ in range(n):
             yield {"p": "".join(rng.choice(self.ALPH) for _ in range(rng.randint(0, 12)))}
